@@ -252,6 +252,7 @@ def case_plain(ctx, rng, idx):
     monitors.ACTIVE[0] = ctx
     try:
         rounds = int(rng.integers(1, 4))
+        held = []
         for r in range(rounds):
             kind = "first"
             if r > 0:
@@ -273,6 +274,12 @@ def case_plain(ctx, rng, idx):
             if not okc:
                 continue
             newH, Ms = res
+            # a solution handed out earlier belongs to the caller: a later call on
+            # the same object must not change it
+            for (ref, cp, what) in held:
+                ctx.ev("block-diagonal", np.array_equal(ref, cp),
+                       cls="earlier-solution-changed-by-later-call", detail={**d, "array": what})
+            held = [(newH, np.array(newH, copy=True), "newH"), (Ms, np.array(Ms, copy=True), "Ms")]
             okc, W = ctx.call("receive-filter", bd.calc_receive_filter, newH, detail=d)
             # the module level helpers must agree with the class
             if r == 0 and rng.random() < 0.3:
